@@ -64,6 +64,8 @@ int __real_open(const char*,int,...); off_t __real_lseek(int,off_t,int); int __r
 int __real_stat(const char*,struct stat*); int __real_fstat(int,struct stat*); int __real_mkdir(const char*,mode_t);
 DIR *__real_opendir(const char*); int __real_readdir_r(DIR*,struct dirent*,struct dirent**); int __real_closedir(DIR*);
 int __real_rename(const char*,const char*);
+FILE *__real_fopen(const char*,const char*); size_t __real_fwrite(const void*,size_t,size_t,FILE*); int __real_fflush(FILE*); int __real_fclose(FILE*);
+int __real_fseek(FILE*,long,int); int __real_fseeko(FILE*,off_t,int);
 time_t __real_time(time_t*); int __real_gettimeofday(struct timeval*,void*); int __real_nanosleep(const struct timespec*,struct timespec*);
 int __real_socket(int,int,int); int __real_bind(int,const struct sockaddr*,socklen_t); int __real_listen(int,int);
 int __real_accept(int,struct sockaddr*,socklen_t*); int __real_connect(int,const struct sockaddr*,socklen_t);
@@ -648,7 +650,9 @@ static std::set<void*> simdirs;
 static bool under_root(const char*p){ if(!g_active||!p) return false; size_t n=P.vroot.size(); return strncmp(p,P.vroot.c_str(),n)==0 && (p[n]=='/'||p[n]==0); }
 static std::string norm(const std::string &p){ std::string r; for(char c:p){ if(c=='/'&&!r.empty()&&r.back()=='/') continue; r+=c; } while(r.size()>1&&r.back()=='/') r.pop_back(); return r; }
 static std::string parent(const std::string &p){ size_t i=p.rfind('/'); return i==std::string::npos||i==0? "/" : p.substr(0,i); }
-static void fs_reset(){ FS.files.clear(); FS.dirs.clear(); FS.dirs.insert(P.vroot); journal.clear(); next_ino=100; n_opens=0; open_log.clear(); for(void*d:simdirs) delete (SimDir*)d; simdirs.clear(); }
+static std::map<FILE*,size_t> stdio_tracked; static bool stdio_stuck=false;   // tracked stream -> bytes written since the last successful flush
+static void stdio_reset(){ stdio_tracked.clear(); stdio_stuck=false; }
+static void fs_reset(){ stdio_reset(); FS.files.clear(); FS.dirs.clear(); FS.dirs.insert(P.vroot); journal.clear(); next_ino=100; n_opens=0; open_log.clear(); for(void*d:simdirs) delete (SimDir*)d; simdirs.clear(); }
 FsImage fs_snapshot(){ FsImage r; r.dirs=FS.dirs; for(auto&kv:FS.files) r.files[kv.first]=std::make_shared<FsFile>(*kv.second); return r; }
 void fs_restore(const FsImage&img){ FS.dirs=img.dirs; FS.files.clear(); for(auto&kv:img.files) FS.files[kv.first]=std::make_shared<FsFile>(*kv.second); }
 std::vector<FsEvent> &fs_journal(){ return journal; }
@@ -733,6 +737,20 @@ extern "C" int __wrap_readdir_r(DIR*dp,struct dirent*e,struct dirent**res){ IGN;
 	SimDir*d=(SimDir*)dp; yield(); if(d->pos>=d->names.size()){ *res=nullptr; return 0; }
 	memset(e,0,offsetof(struct dirent,d_name)); std::string &n=d->names[d->pos++]; snprintf(e->d_name,256,"%s",n.c_str()); e->d_ino=d->pos+10; e->d_type=DT_UNKNOWN; *res=e; return 0; }
 extern "C" int __wrap_closedir(DIR*dp){ IGN; if(!simdirs.count(dp)) return __real_closedir(dp); simdirs.erase(dp); delete (SimDir*)dp; return 0; }
+// ---- stdio faults: FILE streams are real (glibc), only failures are injected, at explicit positions of the plan
+static bool stdio_fault(const char*what){ if(!g_active) return false; uint64_t i=S.stdio_ops++; bool f=stdio_stuck;
+	if(!f) for(uint32_t x:P.stdio_fail_at) if(x==i){ f=true; break; }
+	if(f){ S.stdio_fail++; if(P.stdio_sticky) stdio_stuck=true; trace_mix(0x5D10+i); tracef("stdio fault #%llu in %s",(unsigned long long)i,what); if(getenv("SIMK_DEBUG_FAULTS")) fprintf(stderr,"SIMK stdio fault #%llu in %s\n",(unsigned long long)i,what); } return f; }
+extern "C" FILE *__wrap_fopen(const char*path,const char*mode){ IGN; bool tr = g_active && !P.stdio_track.empty() && path && strstr(path,P.stdio_track.c_str());
+	if(tr && stdio_fault("fopen")){ errno=ENOSPC; return nullptr; } FILE*f=__real_fopen(path,mode); if(tr && f) stdio_tracked[f]=0; return f; }
+// only calls that have something to put on the disk can fail: a write of n>0 bytes, and a flush or seek while written data may still sit in the stream's buffer
+extern "C" size_t __wrap_fwrite(const void*p,size_t sz,size_t n,FILE*f){ if(!g_active) return __real_fwrite(p,sz,n,f); auto it=stdio_tracked.find(f); if(it==stdio_tracked.end() || sz*n==0) return __real_fwrite(p,sz,n,f); IGN;
+	if(stdio_fault("fwrite")){ size_t total=sz*n, k=frng.below(total); if(k) __real_fwrite(p,1,k,f); it->second+=k; errno=ENOSPC; return k/sz; } size_t r=__real_fwrite(p,sz,n,f); it->second+=r*sz; return r; }
+static int stdio_flushing(FILE*f,const char*what,int err){ auto it=stdio_tracked.find(f); if(it==stdio_tracked.end() || it->second==0) return 0; if(stdio_fault(what)){ errno=err; return -1; } it->second=0; return 0; }
+extern "C" int __wrap_fflush(FILE*f){ if(!g_active || !f) return __real_fflush(f); IGN; if(stdio_flushing(f,"fflush",ENOSPC)) return EOF; return __real_fflush(f); }
+extern "C" int __wrap_fseek(FILE*f,long o,int w){ if(!g_active) return __real_fseek(f,o,w); IGN; if(stdio_flushing(f,"fseek",ENOSPC)) return -1; return __real_fseek(f,o,w); }
+extern "C" int __wrap_fseeko(FILE*f,off_t o,int w){ if(!g_active) return __real_fseeko(f,o,w); IGN; if(stdio_flushing(f,"fseeko",ENOSPC)) return -1; return __real_fseeko(f,o,w); }
+extern "C" int __wrap_fclose(FILE*f){ if(g_active) stdio_tracked.erase(f); return __real_fclose(f); }
 
 // ================================================================ hooks called from /repo (guard ARTYOM_BEILIS_CPPCMS_VERIF)
 namespace simk { std::map<std::string,uint64_t> g_probes; std::map<std::string,uint64_t> &probes(){ return g_probes; } }
